@@ -116,6 +116,54 @@ NEVER_EVALUATED = [
 ]
 
 
+ERR_TEMPLATES = [
+    'let v: bool = "@";', 'fn f()->int{ "@" }', 'let v = no_such_name + "@";', 'let /*@*/ v: int = "s";', 'let v = len(1, "@", 2);',
+    'struct S(a: int) let v = S("@");', 'let v = "@"::x;', 'let v: int = f"@{1}";', 'let v = if(1, "@", 2);', 'let v: int = r#"@"#;',
+    'fn f(a: int ?= "@")->int{ a }', 'let v = (x: int)->{ "@" + x };',
+]
+
+
+def excerpt_texts(tier):
+    """rejected programs whose offending span holds n characters of width 1..4 bytes after 0..3 bytes of padding: every byte offset
+    a message renderer could cut at is covered"""
+    out = []
+    for ti, tpl in enumerate(ERR_TEMPLATES):
+        for ch in 'a\u00e9\u4e2d\U0001f600'.encode().decode('unicode_escape'):
+            if ti == 0:
+                ns_ = range(0, 260) if tier != 'quick' else list(range(0, 24)) + list(range(60, 70)) + list(range(120, 132)) + list(range(150, 170)) + [255, 256, 257]
+            else:
+                ns_ = (0, 1, 2, 3, 31, 32, 33, 63, 64, 65, 79, 80, 81, 127, 128, 129, 159, 160, 161, 255, 256, 257, 1023, 1024, 1025) if tier != 'quick' else (0, 1, 64, 80, 128, 160, 161, 256)
+            for n in ns_:
+                for shift in range(4):
+                    if ch == 'a' and shift:
+                        continue
+                    out.append(tpl.replace('@', 'x' * shift + ch * n))
+    return list(dict.fromkeys(out))
+
+
+def type_render_cases():
+    """(program, fragment the message must contain): types with several parameters are rendered in declaration order"""
+    prelude = 'struct P2<A, B>(a: A, b: B)\nstruct P3<A, B, C>(a: A, b: B, c: C)\nunion U2<A, B>(a: A, b: B)\nstruct P4<A, B, C, D>(a: A, b: B, c: C, d: D)\n'
+    tys = {'int': '1', 'str': '"s"', 'float': '1.5', 'bool': 'true'}
+    out = []
+    for n, name in ((2, 'P2'), (3, 'P3'), (4, 'P4')):
+        for combo in itertools.permutations(tys, n):
+            t = '%s<%s>' % (name, ', '.join(combo))
+            out.append((prelude + 'let v: Sequence<int> = %s(%s);' % (name, ', '.join(tys[c] for c in combo)), t))
+            out.append((prelude + 'let v: %s = [1];' % t, t))
+            out.append((prelude + 'fn f(x: %s)->Sequence<int>{ x }' % t, t))
+    for combo in itertools.permutations(tys, 2):
+        t = 'U2<%s>' % ', '.join(combo)
+        out.append((prelude + 'let v: %s = [1];' % t, t))
+        t = 'Mapping<%s>' % ', '.join(combo)
+        out.append(('let v: %s = [1];' % t, t))
+        if combo[0] != 'float':
+            out.append(('let v: Sequence<int> = mapping<%s>().set(%s, %s);' % (combo[0], tys[combo[0]], tys[combo[1]]), t))
+        t = '(%s)' % ', '.join(combo)
+        out.append(('let v: Sequence<int> = (%s);' % ', '.join(tys[c] for c in combo), t))
+    return out
+
+
 def _feed_chunk(args):
     """feed each text on ONE shared scope (a failed feed may leave names behind: the comparison is between identical histories)"""
     texts, parse_only = args
@@ -265,6 +313,20 @@ def run(tier):
             elif want[0] == 'float' and not (isinstance(got, float) and struct.pack('<d', got) == struct.pack('<d', want[1])):
                 rep.fail(Failure(PROP, 'C12|literal-value|%s|wrong-value' % l, {'literal': l}, want, repr(got), job))
     run_family(rep, 'nesting', nesting_texts(), 1)
+    ex = excerpt_texts(tier)
+    rep.bounds['error_excerpt_texts'] = len(ex)
+    run_family(rep, 'error-excerpt', ex, 1 if False else 200)
+    trc = type_render_cases()
+    rep.bounds['type_rendering_programs'] = len(trc)
+    for w, res in zip(chunks(trc, 40), pmap(_fresh_each, [([t for t, f in w],) for w in chunks(trc, 40)])):
+        judge(rep, 'type-rendering', [t for t, f in w], res)
+        for (t, frag), (cls, text, fx) in zip(w, res):
+            key = hashlib.sha1(t.encode()).hexdigest()[:12]
+            if not cls.startswith('cerr'):
+                continue
+            if frag not in text:
+                rep.fail(Failure(PROP, 'C12|type-rendering|%s|%s|type-not-rendered-in-declaration-order' % (key, frag), {'text': t}, 'a message containing %s' % frag, text[:300],
+                                 {'id': 0, 'limits': {}, 'steps': [{'feed': t}]}))
     run_family(rep, 'never-evaluated', NEVER_EVALUATED, 1)
     scripts, book = corpus(tier)
     muts = []
